@@ -515,6 +515,23 @@ def _use(run, P):
                   and len(x.args) == 1 and dotted(x.args[0]) == lp_.target.id]
         if not inside:
             ok = False
+    # comments do not go through the wrapper: what it cuts off a comment is a line of code
+    from ..engine.match import string_prefix
+    G_ = g.cls
+    n_emit = 0
+    for name_, m_ in sorted(G_.methods.items()):
+        for x in ast.walk(m_.node):
+            if isinstance(x, ast.Call) and dotted(x.func) == "self._emit" and x.args:
+                n_emit += 1
+                pre = string_prefix(x.args[0]) or ""
+                if pre.lstrip().startswith("#"):
+                    run.ob("C20.use", m_, x, False,
+                           construct=f"{name_}: a comment is emitted through the line wrapper: {norm(x, 60)}",
+                           why="the wrapper continues a long line with a backslash; the rest of a "
+                               "comment becomes a line of its own without '#': the module does not "
+                               "compile (or runs the words of the comment)")
+    if n_emit < 10:
+        raise AnalysisError("python generator: self._emit call sites not found")
     run.ob("C20.use", g, g.node, ok,
            construct="_emit: wrap_line(line, class level + function level), every piece emitted, "
                      "nothing emitted that did not come out of wrap_line",
